@@ -2907,11 +2907,13 @@ impl Interpreter {
             (new_env, Some(guard))
         };
 
-        // Set the generator's environment as the current environment
+        // Set the generator's environment as the current environment.
+        // The fresh function environment only needs an explicit root while this resumption
+        // runs: afterwards the generator object traces func_env / current_env itself. (Pushing
+        // the guard on the interpreter's env_guards stack without a matching pop leaked the
+        // environment and everything it references for the lifetime of the interpreter.)
         self.env = gen_env;
-        if let Some(guard) = env_guard {
-            self.push_env_guard(guard);
-        }
+        let _gen_env_guard = env_guard;
 
         let vm_guard = self.heap.create_guard();
 
